@@ -25,6 +25,7 @@ import (
 	"go/token"
 	"os"
 	"path/filepath"
+	"sort"
 	"strings"
 )
 
@@ -283,6 +284,153 @@ func genMuxFacts(repo, out string, _ []string) error {
 		}
 		b.WriteString(leanList(it.name, l))
 	}
+	uses, err := mfLocalUses(repo)
+	if err != nil {
+		return err
+	}
+	b.WriteString("/-- A use of a replica-local input (own identity, local configuration, local upgrade backend)\n")
+	b.WriteString("inside the abci package, the abci API package or an application.  `guards`: the conditions of\n")
+	b.WriteString("the enclosing if statements (then-branches), outermost first; `checkOnly`: one of them is a\n")
+	b.WriteString("positive `IsCheckOnly()` test. -/\n")
+	b.WriteString("structure LocalUse where\n  file : String\n  fn : String\n  use : String\n  guards : String\n  checkOnly : Bool\n  ord : Nat\n  deriving DecidableEq, Repr\n\n")
+	b.WriteString("def localInputUses : List LocalUse := [")
+	for i, u := range uses {
+		if i > 0 {
+			b.WriteString(",")
+		}
+		fmt.Fprintf(&b, "\n  ⟨%q, %q, %q, %q, %v, %d⟩", u.file, u.fn, u.use, u.guards, u.checkOnly, u.ord)
+	}
+	b.WriteString("]\n\n")
 	b.WriteString("end Generated.MuxFacts\n")
 	return os.WriteFile(out, []byte(b.String()), 0o644)
+}
+
+// ---- replica-local inputs -------------------------------------------------------------------
+
+type mfUse struct {
+	file, fn, use, guards string
+	checkOnly             bool
+	ord                   int
+}
+
+// Selector names that read something only this node has: its identity, its local configuration,
+// its local upgrade backend.
+var mfLocalNames = map[string]bool{
+	"OwnTxSigner": true, "OwnTxSignerAddress": true, "LocalMinGasPrice": true,
+	"identity": true, "minGasPrice": true, "ownTxSigner": true, "ownTxSignerAddress": true,
+	"haltEpoch": true, "haltHeight": true, "shouldLocalHalt": true,
+	"Upgrader": true, "upgrader": true,
+}
+
+// ApplicationConfig fields that feed the inputs above (storage, pruning and checkpointer settings do
+// not reach the applications).
+var mfLocalCfg = map[string]bool{"Identity": true, "MinGasPrice": true, "HaltEpoch": true, "HaltHeight": true}
+
+func mfLocalUses(repo string) ([]mfUse, error) {
+	var out []mfUse
+	roots := []string{"abci", "api", "apps"}
+	for _, r := range roots {
+		root := filepath.Join(repo, "go", "consensus", "cometbft", r)
+		err := filepath.Walk(root, func(path string, info os.FileInfo, err error) error {
+			if err != nil {
+				return err
+			}
+			if info.IsDir() || !strings.HasSuffix(path, ".go") || strings.HasSuffix(path, "_test.go") {
+				return nil
+			}
+			src, err := os.ReadFile(path)
+			if err != nil {
+				return err
+			}
+			if bytes.Contains(src, []byte("//go:build verif")) {
+				return nil // verification hooks, not part of the node
+			}
+			m, err := mfParse(path)
+			if err != nil {
+				return err
+			}
+			rel, _ := filepath.Rel(repo, path)
+			inAbci := r == "abci"
+			for _, d := range m.f.Decls {
+				fd, ok := d.(*ast.FuncDecl)
+				if !ok || fd.Body == nil {
+					continue
+				}
+				fn := fd.Name.Name
+				if fd.Recv != nil && len(fd.Recv.List) > 0 {
+					t := m.src(fd.Recv.List[0].Type)
+					fn = strings.TrimPrefix(t, "*") + "." + fn
+				}
+				var guards []string
+				var walk func(n ast.Node)
+				walk = func(n ast.Node) {
+					switch x := n.(type) {
+					case nil:
+						return
+					case *ast.IfStmt:
+						walk(x.Cond)
+						guards = append(guards, m.src(x.Cond))
+						if x.Init != nil {
+							// the value bound in the init statement is consumed under the condition
+							walk(x.Init)
+						}
+						walk(x.Body)
+						guards = guards[:len(guards)-1]
+						if x.Else != nil {
+							guards = append(guards, "!("+m.src(x.Cond)+")")
+							walk(x.Else)
+							guards = guards[:len(guards)-1]
+						}
+						return
+					case *ast.SelectorExpr:
+						hit := mfLocalNames[x.Sel.Name]
+						if id, ok := x.X.(*ast.Ident); ok && inAbci && id.Name == "cfg" && mfLocalCfg[x.Sel.Name] {
+							hit = true
+						}
+						if hit {
+							u := mfUse{file: rel, fn: fn, use: m.src(x), guards: strings.Join(guards, " && ")}
+							for _, g := range guards {
+								for _, op := range strings.Split(g, " && ") {
+									if strings.HasSuffix(op, "IsCheckOnly()") && !strings.HasPrefix(op, "!") && !strings.Contains(op, "||") {
+										u.checkOnly = true
+									}
+								}
+							}
+							out = append(out, u)
+						}
+						walk(x.X)
+						return
+					}
+					// generic traversal of children
+					ast.Inspect(n, func(c ast.Node) bool {
+						if c == n {
+							return true
+						}
+						if c != nil {
+							walk(c)
+						}
+						return false
+					})
+				}
+				walk(fd.Body)
+			}
+			return nil
+		})
+		if err != nil {
+			return nil, err
+		}
+	}
+	sort.SliceStable(out, func(i, j int) bool {
+		if out[i].file != out[j].file {
+			return out[i].file < out[j].file
+		}
+		return false
+	})
+	cnt := map[string]int{}
+	for i := range out {
+		k := out[i].file + "\x00" + out[i].fn + "\x00" + out[i].use + "\x00" + out[i].guards
+		out[i].ord = cnt[k]
+		cnt[k]++
+	}
+	return out, nil
 }
